@@ -68,6 +68,8 @@ type qeSpec struct {
 	ViaCall bool      `json:"via_call"` // created from a call handler instead of Service.With
 	FailSub bool      `json:"fail_sub"`
 	Reqs    []reqSpec `json:"reqs"`
+	Run     int       `json:"run,omitempty"`   // restart scenario: created in this Serve run of the service object
+	Stale   int       `json:"stale,omitempty"` // restart scenario: requests sent to its subject in the NEXT run
 }
 
 type scenario struct {
@@ -79,6 +81,7 @@ type scenario struct {
 	History int      `json:"history"` // number of query events of a history scenario
 	Seed    uint64   `json:"seed"`
 	ShutAt  int      `json:"shut_at"` // shutdown scenario: shut down before the expiry of this batch
+	NExp    int      `json:"n_exp"`   // restart scenario: run-0 query events that expire before the Shutdown
 	Index   int      `json:"index"`
 	Gen     genRef   `json:"gen"`
 }
@@ -295,6 +298,7 @@ func (q reqSpec) coqMsg(j int) string {
 }
 
 const unknownID = 999999
+const staleBase = 100000
 
 // canon turns a payload published on a reply subject into a Coq term of type pubmsg.
 func canon(p []byte) string {
@@ -477,10 +481,33 @@ func goid() uint64 {
 }
 
 type gateEv struct {
-	pt  string
-	gid uint64
-	k   int
-	rel chan int
+	pt      string
+	gid     uint64
+	k       int
+	rel     chan int
+	creator uint64 // query-expire: the goroutine that started this timer goroutine
+}
+
+// creatorGid returns the id of the goroutine that started the calling goroutine ("created by ... in goroutine N").
+func creatorGid() uint64 {
+	buf := make([]byte, 16384)
+	n := runtime.Stack(buf, false)
+	st := string(buf[:n])
+	i := strings.LastIndex(st, "created by ")
+	if i < 0 {
+		return 0
+	}
+	j := strings.Index(st[i:], " in goroutine ")
+	if j < 0 {
+		return 0
+	}
+	rest := st[i+j+len(" in goroutine "):]
+	e := 0
+	for e < len(rest) && rest[e] >= '0' && rest[e] <= '9' {
+		e++
+	}
+	id, _ := strconv.ParseUint(rest[:e], 10, 64)
+	return id
 }
 
 type qeState struct {
@@ -494,6 +521,9 @@ type qeState struct {
 	held    *gateEv // listener held at query-recv
 	exited  bool
 	sentJ   []int // request indices already sent
+	run     int
+	cn      *conn
+	staleN  []int // numbers of the stale requests addressed to its subject in a later run
 }
 
 type runner struct {
@@ -508,8 +538,14 @@ type runner struct {
 	parked  []*gateEv
 	lgid    map[uint64]int
 	expect  int
-	expSeq  []int // subscribed query events in creation order
-	expNext int
+	expSeq  map[int][]int // per Serve run: subscribed query events in creation order
+	expNext map[int]int
+	run     int      // current Serve run of the service object
+	creator sync.Map // goid of a goroutine that called QueryEvent -> run
+	nStale  int
+	staleTo map[int]int // stale request number -> query event it was delivered to
+	undeliv int
+	served  chan struct{} // closed when the current Serve call has returned
 	impl    []ImplViolation
 	stalled bool
 	aborted bool
@@ -548,7 +584,11 @@ type conn struct {
 
 func (c *conn) Publish(subject string, payload []byte) error {
 	if atomic.LoadInt32(&c.r.passive) == 0 {
-		c.r.add(entry{kind: "pub", s: subject, data: append([]byte(nil), payload...)})
+		k := -1
+		if v, ok := c.r.cur.Load(goid()); ok {
+			k = v.(int) // published from inside a scripted QueryEvent call
+		}
+		c.r.add(entry{kind: "pub", k: k, s: subject, data: append([]byte(nil), payload...)})
 	}
 	return nil
 }
@@ -563,6 +603,7 @@ func (c *conn) ChanSubscribe(subject string, ch chan *nats.Msg) (*nats.Subscript
 		q := c.r.qes[v.(int)]
 		c.r.inboxK.Store(subject, q.k)
 		q.inbox = subject
+		q.cn = c
 		if q.spec.FailSub {
 			c.r.add(entry{kind: "sub", k: q.k, ok: false})
 			return nil, errors.New("scripted subscription failure")
@@ -605,6 +646,8 @@ func (r *runner) gate(pt string) {
 	ev := &gateEv{pt: pt, gid: goid(), k: -1, rel: make(chan int, 1)}
 	if pt != "query-expire" {
 		r.add(entry{gid: ev.gid, kind: pt})
+	} else {
+		ev.creator = creatorGid()
 	}
 	r.events <- ev
 	k := <-ev.rel
@@ -636,9 +679,22 @@ func (r *runner) classify(ev *gateEv) {
 	}
 	switch ev.pt {
 	case "query-expire":
-		if r.expNext < len(r.expSeq) {
-			ev.k = r.expSeq[r.expNext]
-			r.expNext++
+		// each Serve run has its own timerqueue; its timer goroutine was started from a goroutine that called
+		// QueryEvent in that run
+		run := -1
+		if v, ok := r.creator.Load(ev.creator); ok {
+			run = v.(int)
+		} else {
+			for x := 0; x <= r.run; x++ {
+				if r.expNext[x] < len(r.expSeq[x]) {
+					run = x
+					break
+				}
+			}
+		}
+		if run >= 0 && r.expNext[run] < len(r.expSeq[run]) {
+			ev.k = r.expSeq[run][r.expNext[run]]
+			r.expNext[run]++
 		} else {
 			r.violation("harness", "expiry of an unknown query event")
 		}
@@ -746,9 +802,13 @@ func (r *runner) cb(q *qeState) func(res.QueryRequest) {
 			if n, err := strconv.Atoi(qs[2:]); err == nil && n >= 0 && n < len(q.spec.Reqs) {
 				j = n
 			}
+		} else if strings.HasPrefix(qs, "s=") {
+			if n, err := strconv.Atoi(qs[2:]); err == nil && n >= 0 {
+				j = staleBase + n // a request that was addressed to a query event of the previous run
+			}
 		}
 		r.add(entry{kind: "cb", k: q.k, j: j})
-		if j >= 0 {
+		if j >= 0 && j < staleBase {
 			interpret(qr, q.spec.Reqs[j].Script)
 		}
 	}
@@ -759,8 +819,10 @@ func (q *qeState) rid() string {
 }
 
 func (r *runner) create(q *qeState) {
+	q.run = r.run
 	mk := func(rs res.Resource) {
 		g := goid()
+		r.creator.Store(g, q.run)
 		r.cur.Store(g, q.k)
 		rs.QueryEvent(r.cb(q))
 		r.cur.Delete(g)
@@ -779,7 +841,7 @@ func (r *runner) create(q *qeState) {
 	select {
 	case <-q.created:
 		if q.subOK {
-			r.expSeq = append(r.expSeq, q.k)
+			r.expSeq[q.run] = append(r.expSeq[q.run], q.k)
 		}
 	case <-time.After(3 * time.Second):
 		r.stall(fmt.Sprintf("QueryEvent %d was not created", q.k))
@@ -803,6 +865,7 @@ func (r *runner) newService() *res.Service {
 		}
 		q := r.qes[p.K]
 		g := goid()
+		r.creator.Store(g, q.run)
 		r.cur.Store(g, q.k)
 		cr.QueryEvent(r.cb(q))
 		r.cur.Delete(g)
@@ -818,11 +881,26 @@ func (r *runner) newService() *res.Service {
 }
 
 func (r *runner) serve() bool {
-	r.cn = &conn{r: r}
-	r.s = r.newService()
+	r.cn = &conn{r: r} // a fresh connection object for every Serve
+	if r.s == nil {
+		r.s = r.newService()
+	} else {
+		// the previous Serve call must have returned: its final wg.Wait races with the wg.Add of a new Serve
+		// ("WaitGroup is reused before previous Wait has returned" - a restart hazard outside C15)
+		select {
+		case <-r.served:
+		case <-time.After(5 * time.Second):
+			r.violation("stall", "Serve did not return after Shutdown")
+			return false
+		}
+		r.run++
+		r.shut = false
+	}
 	ready := make(chan struct{})
 	r.s.SetOnServe(func(*res.Service) { close(ready) })
-	go r.s.Serve(r.cn)
+	served := make(chan struct{})
+	r.served = served
+	go func() { r.s.Serve(r.cn); close(served) }()
 	select {
 	case <-ready:
 		return true
@@ -868,8 +946,7 @@ func (r *runner) pending() int {
 				cbSeen[[2]int{e.k, e.j}] = true
 			}
 		case "pub":
-			var k, j int
-			if n, _ := fmt.Sscanf(e.s, "R.%d.%d", &k, &j); n == 2 && !bytes.HasPrefix(e.data, []byte("timeout:")) {
+			if k, j, ok := r.replyOf(e.s); ok && !bytes.HasPrefix(e.data, []byte("timeout:")) {
 				if !seen[[2]int{k, j}] {
 					seen[[2]int{k, j}] = true
 					ran++
@@ -878,6 +955,21 @@ func (r *runner) pending() int {
 		}
 	}
 	return acc - ran
+}
+
+// replyOf maps a reply subject to (query event, request id): "R.k.j" is request j of query event k,
+// "S.n" is stale request n, which belongs to the query event it was delivered to (if any).
+func (r *runner) replyOf(subject string) (int, int, bool) {
+	var k, j, n int
+	if c, _ := fmt.Sscanf(subject, "R.%d.%d", &k, &j); c == 2 && k >= 0 && k < len(r.qes) {
+		return k, j, true
+	}
+	if c, _ := fmt.Sscanf(subject, "S.%d", &n); c == 1 && strings.HasPrefix(subject, "S.") {
+		if k, ok := r.staleTo[n]; ok {
+			return k, staleBase + n, true
+		}
+	}
+	return 0, 0, false
 }
 
 func (r *runner) settle(d time.Duration) {
@@ -1005,6 +1097,143 @@ func (r *runner) runDirected() {
 		}
 		r.settle(2 * time.Second)
 	}
+	r.finish()
+}
+
+// sendStale publishes a request on the subject of a query event of the PREVIOUS Serve run.  The connection
+// of that run is closed, so only a subscription of the current connection on the same subject can receive
+// it - which fresh subjects exclude.
+func (r *runner) sendStale(old *qeState) {
+	n := r.nStale
+	r.nStale++
+	old.staleN = append(old.staleN, n)
+	var to *qeState
+	for _, q := range r.qes {
+		if q.run == r.run && q.subOK && q.cn == r.cn && q.inbox == old.inbox && !q.exited {
+			to = q
+			break
+		}
+	}
+	if to == nil {
+		r.undeliv++
+		return
+	}
+	r.staleTo[n] = to.k
+	m := &nats.Msg{Subject: old.inbox, Reply: fmt.Sprintf("S.%d", n), Data: []byte(fmt.Sprintf(`{"query":"s=%d"}`, n))}
+	g := goid()
+	r.expect = to.k
+	r.mu.Lock()
+	acc := false
+	select {
+	case to.ch <- m:
+		acc = true
+	default:
+	}
+	r.log = append(r.log, entry{gid: g, kind: "arrive", k: to.k, j: staleBase + n, ok: acc})
+	r.mu.Unlock()
+	to.sentJ = append(to.sentJ, staleBase+n)
+	if !acc || to.held != nil {
+		return
+	}
+	ev := r.await(func(e *gateEv) bool {
+		return e.k == to.k && (e.pt == "query-recv" || e.pt == "query-done" || e.pt == "exit")
+	}, 2*time.Second)
+	if ev == nil {
+		r.stall(fmt.Sprintf("listener of query event %d did not take a delivered request", to.k))
+		return
+	}
+	if ev.pt == "exit" {
+		to.exited = true
+		return
+	}
+	release(ev, to.k)
+}
+
+// early sends the requests of the phases that precede the expiry: to the free listener, then the one the
+// listener is held with, then those buffered behind it.
+func (r *runner) early(q *qeState) {
+	if !q.subOK {
+		return
+	}
+	for _, j := range r.reqsOf(q, "A") {
+		r.sendFree(q, j)
+	}
+	if hs := r.reqsOf(q, "H"); len(hs) > 0 {
+		r.expect = q.k
+		if r.send(q, hs[0]) {
+			ev := r.await(func(e *gateEv) bool { return e.k == q.k && e.pt == "query-recv" }, 2*time.Second)
+			if ev == nil {
+				r.stall(fmt.Sprintf("listener of query event %d did not take a delivered request", q.k))
+			} else {
+				q.held = ev
+			}
+		}
+		for _, j := range r.reqsOf(q, "B") {
+			r.send(q, j)
+		}
+	}
+}
+
+// runRestart: ONE service object served twice.  Run 0: query events, the first NExp of which expire; the
+// others are still active when the service is shut down.  Run 1 (fresh connection object): new query
+// events; requests are published on the subjects of run 0 while the new query events (and the still active
+// old ones) are alive; then the old query events expire - in the restarted service -, then the new ones.
+func (r *runner) runRestart() {
+	if !r.serve() {
+		r.aborted = true
+		return
+	}
+	var run0, run1 []*qeState
+	for _, q := range r.qes {
+		if q.spec.Run == 0 {
+			run0 = append(run0, q)
+		} else {
+			run1 = append(run1, q)
+		}
+	}
+	for _, q := range run0 {
+		r.create(q)
+	}
+	for _, q := range run0 {
+		r.early(q)
+	}
+	nexp := r.sc.NExp
+	for i, q := range run0 {
+		if i < nexp && q.subOK {
+			r.expire(q)
+		}
+	}
+	r.settle(2 * time.Second)
+	r.shutdown()
+	if r.stalled || !r.serve() {
+		r.aborted = true
+		r.finish()
+		return
+	}
+	for _, q := range run1 {
+		r.create(q)
+	}
+	for _, q := range run1 {
+		r.early(q)
+	}
+	for _, q := range run0 {
+		for i := 0; i < q.spec.Stale; i++ {
+			if q.inbox != "" {
+				r.sendStale(q)
+			}
+		}
+	}
+	for i, q := range run0 {
+		if i >= nexp && q.subOK {
+			r.expire(q)
+		}
+	}
+	for _, q := range run1 {
+		if q.subOK {
+			r.expire(q)
+		}
+	}
+	r.settle(2 * time.Second)
 	r.finish()
 }
 
@@ -1409,6 +1638,7 @@ func (r *runner) convert() []Case {
 	for i := range cv {
 		cv[i] = &qconv{lastEnq: -1, resps: map[int][]string{}, ranJ: map[int]bool{}}
 	}
+	stalePubs := map[int][]string{}
 	emit := func(k int, l string, listener bool) {
 		c := cv[k]
 		if listener {
@@ -1421,8 +1651,11 @@ func (r *runner) convert() []Case {
 		case "sub":
 			emit(e.k, "LQSub "+Bool(e.ok), false)
 		case "pub":
-			var k, j int
-			if n, _ := fmt.Sscanf(e.s, "R.%d.%d", &k, &j); n == 2 && k >= 0 && k < len(cv) {
+			var sn int
+			if c, _ := fmt.Sscanf(e.s, "S.%d", &sn); c == 1 && strings.HasPrefix(e.s, "S.") {
+				stalePubs[sn] = append(stalePubs[sn], canon(e.data))
+			}
+			if k, j, ok := r.replyOf(e.s); ok {
 				c := cv[k]
 				if !c.ranJ[j] {
 					c.ranJ[j] = true
@@ -1437,19 +1670,27 @@ func (r *runner) convert() []Case {
 					Subject string `json:"subject"`
 				}
 				json.Unmarshal(e.data, &p)
-				if v, ok := r.inboxK.Load(p.Subject); ok {
-					k := v.(int)
+				// attributed to the query event whose QueryEvent call published it (subjects may repeat when
+				// the implementation does not generate fresh ones)
+				if k := e.k; k >= 0 && k < len(cv) {
 					if e.s != "event."+r.qes[k].rid()+".query" {
 						r.violation("harness", "query event published on "+e.s+" for "+r.qes[k].rid())
+					}
+					if p.Subject != r.qes[k].inbox {
+						r.violation("query-subject", "query event published with a subject that was not subscribed: "+string(e.data))
 					}
 					cv[k].npub++
 					emit(k, "LQPublish", false)
 				} else {
-					r.violation("query-subject", "query event published with a subject that was not subscribed: "+string(e.data))
+					r.violation("query-subject", "query event published outside a QueryEvent call: "+string(e.data))
 				}
 			}
 		case "arrive":
-			emit(e.k, fmt.Sprintf("LQArrive %s %s", r.qes[e.k].spec.Reqs[e.j].coqMsg(e.j), Bool(e.ok)), false)
+			if e.j >= staleBase {
+				emit(e.k, fmt.Sprintf("LQArrive (Msg %d PQuery []) %s", e.j, Bool(e.ok)), false)
+			} else {
+				emit(e.k, fmt.Sprintf("LQArrive %s %s", r.qes[e.k].spec.Reqs[e.j].coqMsg(e.j), Bool(e.ok)), false)
+			}
 		case "query-recv":
 			if k, ok := r.lgid[e.gid]; ok {
 				emit(k, "LQTake", true)
@@ -1525,6 +1766,7 @@ func (r *runner) convert() []Case {
 		}
 	}
 	complete := !r.aborted && r.sc.Kind != "shutdown"
+	subjID := map[string]int{}
 	var cases []Case
 	for k, q := range r.qes {
 		c := cv[k]
@@ -1542,11 +1784,39 @@ func (r *runner) convert() []Case {
 				resps = append(resps, fmt.Sprintf("(%d, %s)", j, List(o)))
 			}
 		}
-		term := fmt.Sprintf("QC (Cfg %s %s) %s %s %s %d %s %s", Bool(q.spec.Res != "p"), ty, List(c.labels), List(c.calls),
-			List(resps), c.npub, Bool(c.exited), Bool(complete))
+		// subjects interned per service object, in creation order
+		subj := 0
+		var prev []string
+		for k2 := 0; k2 <= k; k2++ {
+			if r.qes[k2].inbox == "" || (!r.qes[k2].subOK && k2 != k) {
+				continue // QueryEvent was never called for it (scenario cut short) / nothing was published for it
+			}
+			id, ok := subjID[r.qes[k2].inbox]
+			if !ok {
+				id = len(subjID) + 1
+				subjID[r.qes[k2].inbox] = id
+			}
+			if k2 < k {
+				prev = append(prev, strconv.Itoa(id))
+			} else {
+				subj = id
+			}
+		}
+		var stale []string
+		for _, n := range q.staleN {
+			stale = append(stale, List(stalePubs[n]))
+		}
+		term := fmt.Sprintf("QC (Cfg %s %s) %s %s %s %d %s %s %d %s %s", Bool(q.spec.Res != "p"), ty, List(c.labels), List(c.calls),
+			List(resps), c.npub, Bool(c.exited), Bool(complete), subj, List(prev), List(stale))
 		tags := []string{r.sc.Kind}
 		if q.spec.FailSub {
 			tags = append(tags, "failed-sub")
+		}
+		if r.sc.Kind == "restart" {
+			tags = append(tags, fmt.Sprintf("restart-run-%d", q.run))
+			if q.run == 0 && k >= r.sc.NExp {
+				tags = append(tags, "active-across-restart")
+			}
 		}
 		if q.spec.Res == "p" {
 			tags = append(tags, "parallel")
@@ -1577,7 +1847,35 @@ func (r *runner) convert() []Case {
 				tags = append(tags, "arrival-after-listener-returned")
 			}
 		}
-		cases = append(cases, Case{Term: term, Desc: r.desc(k), Tags: tags,
+		desc := r.desc(k)
+		if r.sc.Kind == "restart" {
+			n0 := 0
+			for _, x := range r.qes {
+				if x.spec.Run == 0 {
+					n0++
+				}
+			}
+			desc["history"] = fmt.Sprintf("one Service object: Serve; %d query events (the first %d expire, the others stay active); Shutdown; Serve on a new connection; %d query events; requests published on the subjects of the first run; the old, then the new query events expire",
+				n0, r.sc.NExp, len(r.qes)-n0)
+			desc["serve_run"] = q.run
+			desc["subject"] = q.inbox
+			for k2 := 0; k2 < k; k2++ {
+				if r.qes[k2].subOK && r.qes[k2].inbox == q.inbox && q.inbox != "" {
+					desc["same_subject_as"] = fmt.Sprintf("query event %d of Serve run %d", k2, r.qes[k2].run)
+					break
+				}
+			}
+			var answered []string
+			for _, n := range q.staleN {
+				if k2, ok := r.staleTo[n]; ok {
+					answered = append(answered, fmt.Sprintf("stale request %d received by query event %d of Serve run %d: %v", n, k2, r.qes[k2].run, stalePubs[n]))
+				}
+			}
+			if answered != nil {
+				desc["stale_requests"] = answered
+			}
+		}
+		cases = append(cases, Case{Term: term, Desc: desc, Tags: tags,
 			Nontrivial: len(c.calls) >= 2 && c.exited, Key: term})
 	}
 	return cases
@@ -1593,7 +1891,8 @@ type result struct {
 }
 
 func runScenario(sc scenario) result {
-	r := &runner{sc: sc, events: make(chan *gateEv, 65536), lgid: map[uint64]int{}, expect: -1}
+	r := &runner{sc: sc, events: make(chan *gateEv, 65536), lgid: map[uint64]int{}, expect: -1,
+		expSeq: map[int][]int{}, expNext: map[int]int{}, staleTo: map[int]int{}}
 	for k, qs := range sc.QEs {
 		r.qes = append(r.qes, &qeState{spec: qs, k: k, created: make(chan struct{})})
 	}
@@ -1616,6 +1915,8 @@ func runScenario(sc scenario) result {
 			r.runHistoryNats()
 		case "racy":
 			r.runRacy()
+		case "restart":
+			r.runRestart()
 		default:
 			r.runDirected()
 		}
@@ -1626,6 +1927,12 @@ func runScenario(sc scenario) result {
 	out.Impl = r.impl
 	d := out.Dist
 	d["scenario-"+sc.Kind]++
+	if r.undeliv > 0 {
+		d["stale-request-undelivered"] += r.undeliv
+	}
+	if len(r.staleTo) > 0 {
+		d["stale-request-delivered"] += len(r.staleTo)
+	}
 	if r.skipped != "" {
 		d["history-nats-skipped"]++
 		fmt.Fprintln(os.Stderr, "history-nats skipped:", r.skipped)
@@ -1778,12 +2085,12 @@ func btoi(b bool) int {
 
 func generate(o Opts) []scenario {
 	rng := NewRng(o.Seed)
-	nDir, nRacy, nShut, hist := 300, 120, 30, 200
+	nDir, nRacy, nShut, hist, nRestart := 300, 120, 30, 200, 60
 	if o.Tier == "thorough" {
-		nDir, nRacy, nShut, hist = 8000, 3000, 800, 2000
+		nDir, nRacy, nShut, hist, nRestart = 8000, 3000, 800, 2000, 1500
 	}
 	if o.N > 0 {
-		nDir, nRacy, nShut = o.N, o.N/3, o.N/8
+		nDir, nRacy, nShut, nRestart = o.N, o.N/3, o.N/8, o.N/4+1
 	}
 	var scs []scenario
 	for i := 0; i < nDir+nShut; i++ {
@@ -1822,6 +2129,21 @@ func generate(o Opts) []scenario {
 		for k := 0; k < n; k++ {
 			sc.QEs = append(sc.QEs, genQE(rng, "racy", false))
 		}
+		scs = append(scs, sc)
+	}
+	for i := 0; i < nRestart; i++ {
+		sc := scenario{Kind: "restart", Workers: []int{1, 2, 4}[rng.Intn(3)], Seed: rng.Next() % 1000000}
+		n0, n1 := 1+rng.Intn(5), 1+rng.Intn(5)
+		for k := 0; k < n0+n1; k++ {
+			q := genQE(rng, "directed", true)
+			if k >= n0 {
+				q.Run = 1
+			} else {
+				q.Stale = rng.Intn(3)
+			}
+			sc.QEs = append(sc.QEs, q)
+		}
+		sc.NExp = rng.Intn(n0 + 1)
 		scs = append(scs, sc)
 	}
 	scs = append(scs, scenario{Kind: "history", Workers: 4, History: hist, Seed: rng.Next() % 1000000})
@@ -1976,7 +2298,10 @@ func main() {
 			"expiry, buffered up to and beyond the channel capacity, while the expiry is held, between done and the nil call, after the listener "+
 			"returned), racy schedules (requests sent by a free-running goroutine around the expiry, seeded yield perturbation), shutdown before "+
 			"the expiry, failed subscriptions, callbacks as random scripts of replies/events/timeouts/panics, malformed payloads and missing "+
-			"queries, model/collection/untyped/grouped/Parallel resources (Parallel excluded from the ordering claim), query events created "+
+			"queries, restart histories on ONE service object (run 0 with query events of which some expire and some are still active at Shutdown, "+
+			"Serve again on a fresh connection object, run 1 with new query events, requests published on the subjects of run 0, the old query "+
+			"events expiring inside the restarted service: all subjects over the whole history pairwise distinct, nothing answers a stale request), "+
+			"model/collection/untyped/grouped/Parallel resources (Parallel excluded from the ordering claim), query events created "+
 			"with Service.With and from call handlers; two histories of 200 (quick) / 2,000 (thorough) expired query events - scripted Conn: goroutine "+
 			"count and goroutine profile back to the baseline, callbacks = requests taken; real nats.go connection to an embedded nats-server with a "+
 			"second connection as gateway: also client and server subscription counts back to the baseline, nothing answered after the expiry -; one case = one query event (its label trace, invocations and responses); "+
